@@ -117,6 +117,7 @@ type Object struct {
 	zero bool // contents start as the zero value
 	init Val  // explicit initial value
 	pre  bool // existed before the function under verification started (caller visible)
+	global bool  // a package-level variable
 	kind string // "" memory cell; "map" / "chan" / "arr": storage behind a map, channel or slice value
 }
 
@@ -741,16 +742,16 @@ func (e *Engine) noteOwners(o *Object, fpath []int, v Val, depth int) {
 			e.noteOwners(o, append(append([]int(nil), fpath...), i), f, depth+1)
 		}
 	case *MapV:
-		if t.Obj != nil && len(fpath) > 0 {
-			e.owner[t.Obj.id] = writeRec{obj: o, fpath: fpath[:len(fpath)-1]}
+		if t.Obj != nil {
+			e.owner[t.Obj.id] = ownerRec(o, fpath)
 		}
 	case *ChanV:
-		if t.Obj != nil && len(fpath) > 0 {
-			e.owner[t.Obj.id] = writeRec{obj: o, fpath: fpath[:len(fpath)-1]}
+		if t.Obj != nil {
+			e.owner[t.Obj.id] = ownerRec(o, fpath)
 		}
 	case *SliceV:
-		if t.Obj != nil && len(fpath) > 0 {
-			e.owner[t.Obj.id] = writeRec{obj: o, fpath: fpath[:len(fpath)-1]}
+		if t.Obj != nil {
+			e.owner[t.Obj.id] = ownerRec(o, fpath)
 		}
 	}
 }
@@ -961,4 +962,11 @@ func sortedKeys(m map[string]bool) []string {
 	}
 	sort.Strings(ks)
 	return ks
+}
+
+func ownerRec(o *Object, fpath []int) writeRec {
+	if len(fpath) == 0 {
+		return writeRec{obj: o}
+	}
+	return writeRec{obj: o, fpath: fpath[:len(fpath)-1]}
 }
